@@ -80,20 +80,26 @@ def via_map_cases(thorough):
         for layout in ("one-group", "vector-layers-then-other-group", "other-group-image-last"):
             for win in (1.0, 0.6):
                 yield {"kind": "via_map", "dir": d, "layout": layout, "dx": win}
+    # windows that are not square, on 4^3 cells at four different distances from the centre: the sphere that decides 'top' and
+    # 'side' has the radius (dx + dy) / 4, which falls between two shells of cells
+    for d in ("top", "side", "z"):
+        for (wx, wy) in ((1.0, 0.6), (0.7, 1.0), (0.6, 1.0), (1.0, 1.3), (1.6, 1.0)):
+            yield {"kind": "via_map", "dir": d, "layout": "one-group", "dx": wx, "dy": wy, "grid": 4}
 
 
 def run_via_map(acc, idx, c):
     import osyris
 
     V_, A_ = osyris.Vector, osyris.Array
-    pts = np.array(list(itertools.product([0.25, 0.75], repeat=3)))
+    ng = c.get("grid", 2)
+    pts = np.array(list(itertools.product([(i + 0.5) / ng for i in range(ng)], repeat=3)))
     n = len(pts)
 
     def group(seed):
         g = osyris.Datagroup()
         g["position"] = V_(pts[:, 0].copy(), pts[:, 1].copy(), pts[:, 2].copy(), unit="cm")
-        g["dx"] = A_(np.full(n, 0.5), unit="cm")
-        k = np.arange(n, dtype=float)
+        g["dx"] = A_(np.full(n, 1.0 / ng), unit="cm")
+        k = np.arange(n, dtype=float) % 8 + np.floor(np.arange(n, dtype=float) / 8.0) * 0.37
         if seed == 0:
             vel = np.stack([1.0 + k, 3.0 - 2.0 * k, 0.5 * k * k - 4.0], axis=1)
             mass = 1.0 + (k % 3)
@@ -120,7 +126,8 @@ def run_via_map(acc, idx, c):
     direction = V_(*[float(x) for x in d[1]]) if isinstance(d, list) else d
     try:
         with contextlib.redirect_stdout(io.StringIO()), np.errstate(all="ignore"):
-            p = osyris.map(*layers, direction=direction, dx=c["dx"] * osyris.units("cm"), origin=V_(*o, unit="cm"), resolution=1, plot=False)
+            kw = {"dy": c["dy"] * osyris.units("cm")} if "dy" in c else {}
+            p = osyris.map(*layers, direction=direction, dx=c["dx"] * osyris.units("cm"), origin=V_(*o, unit="cm"), resolution=1, plot=False, **kw)
     except Exception as e:
         acc.violation(f"C18:map-raised:{type(e).__name__}", idx, c, {"error": repr(e)[:200]})
         return "raises", True
@@ -133,7 +140,7 @@ def run_via_map(acc, idx, c):
     if abs(np.linalg.norm(u) - 1) > 1e-10 or abs(np.linalg.norm(v) - 1) > 1e-10 or abs(np.dot(u, v)) > 1e-10:
         pr.append(("map-basis-not-orthonormal", {"u": u.tolist(), "v": v.tolist()}))
     # the cells of the FIRST layer inside the window sphere decide 'top' and 'side'
-    R = 0.25 * (c["dx"] + c["dx"])
+    R = 0.25 * (c["dx"] + c.get("dy", c["dx"]))
     r = pts - o
     inside = np.linalg.norm(r, axis=1) < R
     L = np.sum(mass0[inside, None] * np.cross(r[inside], vel0[inside]), axis=0)
